@@ -313,6 +313,9 @@ pub fn run_mask(rep: &mut Report, m: &Mask, origin: &str, record_identity: bool,
                 if !list {
                     rep.add("nested_components(no_contour_required_in_External_mode)", st.nested_components as u64);
                     rep.add("observed:External_contours_of_enclosed_components", st.extra_external_contours as u64);
+                    if st.extra_external_contours > 0 && !rep.notes.contains_key("first_mask_where_External_returns_a_contour_of_an_enclosed_component") {
+                        rep.note("first_mask_where_External_returns_a_contour_of_an_enclosed_component", json!(format!("{}x{}:{}", m.h, m.w, m.rows())));
+                    }
                 }
                 if rep.wants_sample() && info.holes > 0 && info.n_comp >= 2 && m.h >= 4 && list {
                     rep.sample(|| json!({"mask": format!("{}x{}:{}", m.h, m.w, m.rows()), "mode": mode_name(list), "components": info.n_comp, "holes": info.holes, "contours": st.contours, "points": st.points}));
@@ -495,7 +498,7 @@ pub fn run(rep: &mut Report, args: &Args) {
 
     // ---- random / structured masks up to 32x32
     let mut rng = Rng::derive(args.seed, 0xC36 + args.shard as u64);
-    let n = args.budget(20_000, 4_000_000);
+    let n = args.budget(20_000, 2_000_000);
     for i in 0..n {
         let (kind, m) = gen_mask(&mut rng);
         rep.count(&format!("mask_kind:{}", kind));
